@@ -20,6 +20,34 @@ HINT_TYPES = [
 ]
 EXTRA_TYPES = ["range", "calculate", "start-geopoint", "background-geopoint"]
 EXTRA_CHOICE_COLS = ["population", "state", "code2", "geometry_x", "cf", "Weight"]
+
+_SLOT_LIKE = None
+
+
+def slot_like_choice_cols() -> list[str]:
+    """Extra choices-sheet columns named like the structural keys / slots of the element classes (read from the
+    classes of the tree under test): `parent` (the usual name of a cascade column), `extra_data`, `children`,
+    `type`, `choices`, `itemset`, `bind`, … — a column that collides with a slot name must still travel through
+    `to_json_dict` and back.  Left out: the real columns (`name`, `label`, `list_name`) and names that the
+    converter itself does not accept as an extra column (probed once per run: they raise in a direct conversion,
+    which is not this property's business)."""
+    global _SLOT_LIKE
+    if _SLOT_LIKE is None:
+        import impl
+        from pyxform.question import OPTION_FIELDS, SELECT_QUESTION_FIELDS
+        from pyxform.section import SECTION_FIELDS
+        from pyxform.survey_element import SURVEY_ELEMENT_SLOTS
+
+        cand = [n for n in dict.fromkeys([*OPTION_FIELDS, *SURVEY_ELEMENT_SLOTS, *SELECT_QUESTION_FIELDS, *SECTION_FIELDS])
+                if n not in ("name", "label", "list_name")]
+        ok = []
+        for n in cand:
+            r = impl.run({"survey": [{"type": "select_one l", "name": "s", "label": "S"}],
+                          "choices": [{"list_name": "l", "name": "a", "label": "A", n: "x"}]})
+            if r["ok"]:
+                ok.append(n)
+        _SLOT_LIKE = ok
+    return _SLOT_LIKE
 MEDIA_COLS = ["image", "audio", "video", "big-image"]
 
 # feature tags (for the evidence distribution and for matchers)
@@ -74,6 +102,8 @@ def c16_form(rng: random.Random, big: bool = False, adversarial_text: bool = Fal
         for ln in g.lists:
             if rng.random() < 0.45:
                 extra_cols_by_list[ln] = rng.sample(EXTRA_CHOICE_COLS, rng.randint(1, 2))
+                if rng.random() < 0.4 and slot_like_choice_cols():
+                    extra_cols_by_list[ln][rng.randrange(len(extra_cols_by_list[ln]))] = rng.choice(slot_like_choice_cols())
         for row in form["choices"]:
             for c in extra_cols_by_list.get(row["list_name"], []):
                 if rng.random() < 0.85:
@@ -148,6 +178,8 @@ def c16_form(rng: random.Random, big: bool = False, adversarial_text: bool = Fal
                 row["type"] = t + " or_other"
             if rng.random() < 0.2:
                 row["appearance"] = rng.choice(["minimal", "compact", "likert", "label", "list-nolabel", "quick"])
+            elif rng.random() < 0.04 and base != "rank" and "choice_filter" not in row and "parameters" not in row:
+                row["appearance"] = "search('fruits')"
         elif base in ("text", "string"):
             if rng.random() < 0.15:
                 row["parameters"] = rng.choice(["rows=3", "rows=5"])
